@@ -75,7 +75,10 @@ def gen_spec(prop, rng, tier):
         if readst:
             cands += ['X'] * 6
         if runst:
-            cands += ['W'] * 4 + ['X'] * 1 + ['F'] * 1
+            # (kalign_run is not repeated on an object that has already been aligned: the finalised object
+            #  is a different input - see DESIGN.md 12.3 F1 and 12.4 - and everything derived from it,
+            #  e.g. a later compare, would inherit that)
+            cands += ['W'] * 4 + ['F'] * 1
         pairs = [(a, b) for a in runst for b in runst if a < b and slots[a]['set'] == slots[b]['set']]
         if pairs:
             cands += ['C'] * 3
@@ -96,7 +99,7 @@ def gen_spec(prop, rng, tier):
             ops.append({'k': 'R', 's': s, 'files': [path]})
             slots[s] = {'set': ks, 'state': 'read'}
         elif k == 'X':
-            s = rng.choice(readst + runst if rng.random() < 0.1 and runst else (readst or runst))
+            s = rng.choice(readst)
             wl = sets[slots[s]['set']]
             t = rand_type(wl); gp = rand_gp()
             ops.append({'k': 'X', 's': s, 'n': gen.thread_count(rng), 't': t, 'gp': gp})
